@@ -171,6 +171,11 @@ def r13_2(U, rep):
       if len(a) == 4 and a[0] == ('f', params[1]) and a[1] == ('f', params[2]) and idx == pred.C(comp) \
           and attr_src(a[2], 'pos') and attr_src(a[3], 'quat'):
         ok = True
+    extra = [a for a in pc if 'fromto' not in a]
+    rep.check(not extra, 'R13.2', '_offset writes %s on every non-fromto path' % key,
+              'the composed `%s` is written back only under the extra condition {%s}: a parent pose changes both the '
+              'position and the orientation of its children, so both must always be written' % (key, '; '.join(sorted(extra))),
+              where=f.where(s), construct='pc = {%s}' % '; '.join(sorted(pc)))
     rep.check(ok, 'R13.2', '_offset.%s = _transform_do(parent_pos, parent_quat, pos, quat)[%d]' % (key, comp),
               'the `%s` written by _offset is not component %d of _transform_do(parent_pos, parent_quat, elem pos, elem quat)' % (key, comp),
               where=f.where(s), construct=pred.show(term)[:200])
